@@ -390,7 +390,16 @@ def _run_ino(prop, tier, seed, plan, tmp, t0, only_scn):
                 "model-checking results hold for the stated small constants only",
             ],
             wall_s=round(time.time() - t0, 1), violations=len(viols))
-        json.dump(ev, open(evidence_path(prop), "w"), indent=1)
+        evp = evidence_path(prop)
+        if plan.get("_merge_into_existing") and os.path.exists(evp):
+            # the property's main engine has written the evidence file already: what the Watcher scenarios covered is added to it
+            base = json.load(open(evp))
+            base["coverage"]["watcher_scenarios"] = ev["coverage"]
+            base["violations"] = base.get("violations", 0) + ev["violations"]
+            base["wall_s"] = round(base.get("wall_s", 0) + ev["wall_s"], 1)
+            base["assumptions"] = base.get("assumptions", []) + [a for a in ev.get("assumptions", []) if a not in base.get("assumptions", [])]
+            ev = base
+        json.dump(ev, open(evp, "w"), indent=1)
     log("%s %s seed=%d: %d scenarios, %d validated, %d lines, %d violations, %d known, %.1fs"
         % (prop, tier, seed, nscn, validated, res["total"], len(viols), len(known_hit), time.time() - t0))
     return 1 if viols else 0
@@ -420,6 +429,14 @@ def run_check(prop, tier, seed):
             if rc != 2 and plan.get("also_kqstress"):
                 import engine_kqstress
                 rc2 = engine_kqstress.run(prop, tier, seed)
+                rc = 2 if rc2 == 2 else max(rc, rc2)
+            return rc
+        if plan["engine"] == "ops" and plan.get("also_ino"):
+            # the tables first (they write the evidence file), then Watcher scenarios that exercise subscription and translation end to end
+            import engine_ops
+            rc = engine_ops.run(prop, tier, seed, plan)
+            if rc != 2:
+                rc2 = run_ino(prop, tier, seed, dict(plan, engine=plans.INO, quick=plan["also_ino"]["quick"], thorough=plan["also_ino"]["thorough"], mc=[], _merge_into_existing=True))
                 rc = 2 if rc2 == 2 else max(rc, rc2)
             return rc
         mod = __import__("engine_" + plan["engine"])
